@@ -43,7 +43,7 @@ TNext ==
   \/ /\ pc = "idle" /\ l < Len(Steps)
      /\ LET a == StepN IN
         \/ a.a = "cycle" /\ StartCycle(FaultsOf(a)) /\ UNCHANGED <<tr, l>>
-        \/ a.a = "scrape" /\ ScrapeRound(a.i) /\ Matches /\ Consume
+        \/ a.a = "scrape" /\ (IF Len(a.only) = 0 THEN ScrapeRound(a.i) ELSE ScrapeSet(a.i, {a.only[k] : k \in DOMAIN a.only})) /\ Matches /\ Consume
         \/ a.a = "tick" /\ Tick /\ Matches /\ Consume
         \/ a.a = "probe" /\ Probe(a.t) /\ Matches /\ Consume
         \/ a.a = "restart" /\ RestartSidecar(a.i) /\ Matches /\ Consume
